@@ -42,4 +42,10 @@ without looking at its signatures -/
 def addRoleAccepted (checked : Bool) (table : List KeyId) (rk : RoleKeys) (m : Msg) (sigs : List Sig) : Bool :=
   if checked then incomingVerifies table rk m sigs else true
 
+/-- `RepositoryEditor::sign` refuses a delegation tree that uses a role name twice (a role name is the
+name of one metadata file, and a client loads each name at most once) -/
+def namesDistinct : List Nat → Bool
+  | [] => true
+  | a :: rest => !rest.contains a && namesDistinct rest
+
 end Tough.EditorSign
